@@ -29,8 +29,87 @@ def check_append_helper(rep, facts, key, rule):
     return okr and okc and not others
 
 
+def lin(t):
+    """linear form {atom | 1: coefficient} of an index term built from constants, slice lengths, + and -; None if not linear"""
+    if t is None:
+        return {}
+    if t[0] == 'const' and isinstance(t[2], int) and not isinstance(t[2], bool):
+        return {1: t[2]} if t[2] else {}
+    if t[0] == 'len':
+        return {('len', strip_sites(t[1])): 1}
+    if t[0] == 'bin' and t[1] in ('Add', 'Sub'):
+        x, y = lin(t[2]), lin(t[3])
+        if x is None or y is None:
+            return None
+        out = dict(x)
+        for k, v in y.items():
+            out[k] = out.get(k, 0) + (v if t[1] == 'Add' else -v)
+        return {k: v for k, v in out.items() if v}
+    return None
+
+
+def concat_pieces_explicit(a, ref, point):
+    """decode a buffer laid out by hand: `buf[k] = b`, `buf[s..e].copy_from_slice(x)` with s, e linear in constants and
+    lengths — contiguous from 0, each range exactly as long as its source, and the reference is `&buf[..total]`.
+    -> (pieces [(ref_term, site)], None, N) or (None, why, None)"""
+    if ref[0] != 'addr' or ref[1][0] != 'local':
+        return None, 'not a reference into a local buffer', None
+    path = ref[2]
+    if len(path) != 1 or path[0][0] != 'slice' or path[0][1] is not None:
+        return None, 'not a prefix slice', None
+    v = a.val_local(ref[1][1], point)
+    if v[0] != 'mem' or v[4]:
+        return None, 'buffer is not a written local', None
+    init = v[2]
+    if not (init[0] == 'repeat' and init[1] == ('const', 'u8', 0) and isinstance(init[2], int)):
+        return None, 'buffer not zero-initialised array', None
+    N = init[2]
+    cur = {}
+    pieces = []
+    for (site, wpath, desc, dom) in v[3]:
+        if not dom or wpath is None or len(wpath) != 1:
+            return None, 'writer not on every path / unknown target', None
+        e = wpath[0]
+        if desc[0] == 'store' and e[0] == 'i':
+            start = lin(e[1])
+            if start is None:
+                return None, 'non-linear index', None
+            end = dict(start)
+            end[1] = end.get(1, 0) + 1
+            piece = ('addr', ('cell', ('agg', 'array', 'array', (desc[1],), ('0',))), (), False)
+        elif desc[0] == 'call' and desc[1].endswith('copy_from_slice') and e[0] == 'slice' and len(desc[2]) == 2:
+            start, end = lin(e[1]), lin(e[2]) if e[2] is not None else None
+            if start is None or end is None:
+                return None, 'non-linear range', None
+            piece = desc[2][1]
+            ln = {k: end.get(k, 0) - start.get(k, 0) for k in set(end) | set(start)}
+            ln = {k: x for k, x in ln.items() if x}
+            if ln != {('len', strip_sites(piece)): 1}:
+                return None, 'range length is not the source length', None
+        else:
+            return None, 'writer is neither a byte store nor a copy into a range', None
+        if {k: x for k, x in start.items() if x} != cur:
+            return None, 'pieces are not contiguous', None
+        cur = {k: x for k, x in end.items() if x}
+        pieces.append((piece, site))
+    total = lin(path[0][2])
+    if total is None or {k: x for k, x in total.items() if x} != cur or not pieces:
+        return None, 'the slice does not end where the last piece ends', None
+    return pieces, None, N
+
+
 def concat_pieces(a, ref, point):
-    """decode `&buf[..N - unused.len()]` built by the append chain -> (pieces [(ref_term, site)], helper_key, N) or (None, why, None)"""
+    """decode `&buf[..N - unused.len()]` built by the append chain, or a buffer laid out by explicit index arithmetic
+    -> (pieces [(ref_term, site)], helper_key | None, N) or (None, why, None)"""
+    r = _concat_pieces_chain(a, ref, point)
+    if r[0] is None:
+        r2 = concat_pieces_explicit(a, ref, point)
+        if r2[0] is not None:
+            return r2
+    return r
+
+
+def _concat_pieces_chain(a, ref, point):
     if ref[0] != 'addr' or ref[1][0] != 'local':
         return None, 'not a reference into a local buffer: ' + pp(ref)[:80], None
     path = ref[2]
